@@ -99,6 +99,14 @@ CLAIMED["C02"] = ("DESIGN.md §4 C02",
     "trusted: pysym; decimal128 pack/unpack treated as mutually inverse uninterpreted functions here (C01 decides values); "
     "string table stub; outside: whole documents, fixtures, formula text, bullets, merge maps, IWA copy-back")
 
+CLAIMED["C16"] = ("DESIGN.md §4 C16",
+    "The real row_height/col_width readers and recalculate_row_headers/recalculate_column_headers writers are run as a "
+    "read-write-reopen cycle (1..3 times) over header records with symbolic stored sizes 1..10000 points, borders of width "
+    "0/1/3, queried or not, set through the API or not: z3 shows sizes come back equal (known finding: drift with borders "
+    ">= 2); header-count setters reject every int outside 0..min(size,5) without change.",
+    "trusted: pysym, exact half-integer float model; header records are attribute bags; outside: names, captions, "
+    "visibility, coordinates, non-integral stored sizes")
+
 NOT_APPLICABLE = {}
 
 
